@@ -55,8 +55,8 @@ Proof.
     + split; [lia|]. intros X. congruence.
     + split; [intros g []|intros g X; discriminate].
   - (* Fire *)
-    destruct (not_entered (p s) || (now s <? deadline s) || evt s || completed s) eqn:G; [discriminate|].
-    apply orb_false_iff in G as [G G4]. apply orb_false_iff in G as [G G3]. apply orb_false_iff in G as [G1 G2].
+    destruct (not_entered (p s) || (now s <? deadline s) || evt s) eqn:G; [discriminate|].
+    apply orb_false_iff in G as [G G3]. apply orb_false_iff in G as [G1 G2].
     inv_step_tac. constructor; cbn.
     + intros X. destruct (Ih X) as [A _]. split; [exact A|left; reflexivity].
     + intros _. lia.
@@ -190,7 +190,7 @@ Lemma fire_queues_discard s s1 s2 tag : p s = OnWire (Some tag) -> subscribed s 
   owed s2 = Some tag /\ evt s2 = true.
 Proof.
   intros P Sb Tk Co H1 H2. cbn in H1.
-  destruct (not_entered (p s) || (now s <? deadline s) || evt s || completed s); [discriminate|].
+  destruct (not_entered (p s) || (now s <? deadline s) || evt s); [discriminate|].
   inversion H1; subst; clear H1. cbn in H2. rewrite Sb in H2. inversion H2; subst; clear H2. cbn.
   rewrite P, Tk, Co. split; reflexivity.
 Qed.
@@ -226,7 +226,7 @@ Proof.
       assert (X : p a1 = Gone /\ writes a1 = writes a).
       { destruct l; cbn in E; rewrite ?Pa in E; cbn in E; try discriminate.
         - destruct (t <? now a); [discriminate|]. inversion E; subst. auto.
-        - destruct ((now a <? deadline a) || evt a || completed a); [discriminate|]. inversion E; subst. cbn. auto.
+        - destruct ((now a <? deadline a) || evt a); [discriminate|]. inversion E; subst. cbn. auto.
         - destruct (evt a && negb (completed a)); [|discriminate]. inversion E; subst. auto.
         - destruct (completed a); [discriminate|]. inversion E; subst. auto.
         - destruct (notif a); [|discriminate]. inversion E; subst. cbn. auto.
